@@ -544,3 +544,28 @@ PROPS["C01"]["level_note"] += (
     "changes - NOT streaming sounds, spatial tracks/listeners or exhausted capacities (those stay with suite system); real components' "
     "chunk-freedom is proved for depth-0 effects at rest only (C01_real_components_chunk_free_partial), the buffer-size invariance of "
     "whole real scenes is checked on kira itself by the bit-exact oracle buffer_size_invariance")
+
+# --- C11 for scenes of REAL components (Props/C11_real.lean): the chunk / partition lemmas are invariant-relative
+# (Comps.ChunkHomOn, the unconditional ones are the special case of trivial invariants) and instantiated with the real
+# static sound and the eight effects (delay chains nested to any depth) of the whole-system model.
+PROPS["C11"]["level_text"] += (
+    ". REAL COMPONENTS: the lifts are proved in invariant-relative form (components chunk-homomorphic on state invariants preserved "
+    "by process, slices <= internal buffer size; C11_*_on) and instantiated with the whole-system model Model/System.lean: for "
+    "EVERY scene of real static sounds (any rate, loop, reverse, ended or ending), the eight effects with delay feedback chains "
+    "nested to any depth, track trees and sends, with all parameters settled and nothing in flight, any two sequences of whole "
+    "device callbacks (on_start_processing - which unloads finished sounds - then process) with equal totals on the scene built "
+    "with ANY two internal buffer sizes render the identical device samples and end in equivalent states "
+    "(C11_real_scene_partition_invariant; C11_real_scene_render_partition_invariant for process calls only; "
+    "C11_real_still_idle_preserved: the premise is an invariant; C11_real_scene_callbacks_succeed: System.callback, the "
+    "function the whole-system twin runs, never reports a panic on such scenes and is that device-callback run)")
+PROPS["C11"]["level_note"] += (
+    "; SUPERSEDED IN PART: the real static sound and the eight effects ARE now proved chunk-homomorphic relative to explicit "
+    "invariants (Proofs/RealSndLemmas.lean, Proofs/RealFxLemmas.lean) and finishing sounds are covered by the theorem (states are "
+    "compared after dropping finished sounds and forgetting dead sound state); still outside: moving clocks / modulators "
+    "(no modulator, no ticking clock in the premise), paused->playing transitions, streaming sounds, spatial tracks")
+PROPS["C11"]["assumptions"] += [
+    "real scenes: every sound has settled volume/rate/panning/fade, immediate start, is paused/stopped or playing inside its documented "
+    "domain (slice inside the data, valid loop) with loop fuel >= sampleRate*|rate|*dt + 1; every effect at rest, reverb initialised "
+    "at >= 196 Hz, delay lines non-empty with scratch >= internal buffer size at every nesting depth, no latched panic; "
+    "no modulators, no ticking clock; no command / new resource / dropped handle pending",
+]
